@@ -678,8 +678,10 @@ attrsLoop:
 						}
 						// net/url finds no host in "https:example.com/x" or
 						// "http:/example.com", a browser does: for these
-						// schemes the slashes after the colon are optional.
-						if (u.Scheme == "http" || u.Scheme == "https") &&
+						// schemes (and ftp, ws, wss) the slashes after the
+						// colon are optional.
+						if (u.Scheme == "http" || u.Scheme == "https" ||
+							u.Scheme == "ftp" || u.Scheme == "ws" || u.Scheme == "wss") &&
 							strings.Trim(u.Opaque+u.Path, `/\`) != "" {
 							externalLink = true
 						}
